@@ -850,8 +850,25 @@ class _Roc:
           opn = {'<': '>', '<=': '>=', '>': '<', '>=': '<='}[opn]
         return ('adm', (tuple(sorted(terms.items())), const, opn))
       return ('?',)
+    if isinstance(e, ast.Dict) and all(
+            isinstance(k, ast.Constant) and isinstance(k.value, str)
+            for k in e.keys):
+      # a dispatch table keyed by the strategy
+      return ('dict', tuple((k.value, self.ev(v, env))
+                            for k, v in zip(e.keys, e.values)))
+    if isinstance(e, (ast.Tuple, ast.List)):
+      return ('tuple', tuple(self.ev(x, env) for x in e.elts))
     if isinstance(e, ast.Subscript):
       b = self.ev(e.value, env)
+      if b[0] == 'dict':
+        k = self.strategy if isinstance(e.slice, ast.Name) and \
+            e.slice.id == 'strategy' else (
+                e.slice.value if isinstance(e.slice, ast.Constant) else None)
+        return dict(b[1]).get(k, ('?',))
+      if b[0] == 'tuple' and isinstance(e.slice, ast.Constant) and \
+              isinstance(e.slice.value, int) and \
+              -len(b[1]) <= e.slice.value < len(b[1]):
+        return b[1][e.slice.value]
       if b[0] == 'wheretuple' and isinstance(e.slice, ast.Constant) and \
               e.slice.value == 0:
         return b[1]
@@ -888,9 +905,17 @@ class _Roc:
         return ('len', v)
     return ('?',)
 
-  def decide(self, test):
+  def decide(self, test, env=None):
     """truth of a test that only looks at `strategy`; None otherwise"""
     names = set(x.id for x in ast.walk(test) if isinstance(x, ast.Name))
+    if isinstance(test, ast.Compare) and len(test.ops) == 1 and \
+            isinstance(test.ops[0], (ast.In, ast.NotIn)) and \
+            isinstance(test.left, ast.Name) and test.left.id == 'strategy' \
+            and env is not None:
+      r = self.ev(test.comparators[0], env)
+      if r[0] == 'dict':
+        res = self.strategy in dict(r[1])
+        return res if isinstance(test.ops[0], ast.In) else not res
     if names != {'strategy'}:
       return None
     try:
@@ -901,7 +926,7 @@ class _Roc:
   def run(self, body, env, dead=False):
     for k, s_ in enumerate(body):
       if isinstance(s_, ast.If):
-        t = self.decide(s_.test)
+        t = self.decide(s_.test, env)
         if t is True:
           if self.run(s_.body, env, dead) == 'return':
             return 'return'
@@ -941,6 +966,12 @@ class _Roc:
           for el, v in zip(t0.elts, vals):
             if isinstance(el, ast.Name):
               env[el.id] = v
+        elif isinstance(t0, ast.Tuple):
+          v = self.ev(s_.value, env)
+          for k_, el in enumerate(t0.elts):
+            if isinstance(el, ast.Name):
+              env[el.id] = v[1][k_] if v[0] == 'tuple' and \
+                  len(v[1]) == len(t0.elts) else ('?',)
         elif isinstance(t0, ast.Name):
           env[t0.id] = self.ev(s_.value, env)
         elif ast.unparse(t0) == 'self.threshold_':
@@ -1081,7 +1112,7 @@ def rule_bound_unmodified(repo, rep):
                   'boundary (1 - 0.8 = 0.19999999999999996), a cut-off whose '
                   'rate equals min_rate is no longer admissible'
                   % ast.unparse(inv[0]))
-  rep.floor('comparisons with min_rate', n, 2)
+  rep.floor('comparisons with min_rate', n, 1)
 
 
 def _lin_str(terms, const):
